@@ -164,22 +164,22 @@ Qed.
 
 Definition is4 (f : fmt) : bool := match f with FUVTW | Fhkil => true | _ => false end.
 
+(* Miller.cross never raises on compatible vectors, in any of the five formats: the
+   result is x1 x x2, 3-index stays 3-index, 4-index stays 4-index; lattice formats go to
+   the dual space (direct <-> reciprocal); the Cartesian format "xyz" stays "xyz" *)
 Theorem cross_dual_format (f1 f2 : fmt) (x1 x2 : V3) :
-  f1 <> Fxyz -> compatible f1 f2 = true ->
+  compatible f1 f2 = true ->
   exists f', cross ROps f1 x1 f2 x2 = Ok (f', vcross ROps x1 x2) /\
-             fmt_space f' <> fmt_space f1 /\ is4 f' = is4 f1 /\
+             (f1 <> Fxyz -> fmt_space f' <> fmt_space f1) /\ (f1 = Fxyz -> f' = Fxyz) /\
+             is4 f' = is4 f1 /\
              vdot ROps (vcross ROps x1 x2) x1 = 0 /\ vdot ROps (vcross ROps x1 x2) x2 = 0.
 Proof.
-  intros Hx Hc. unfold cross. rewrite Hc.
-  destruct f1; try congruence; eexists; (split; [reflexivity|]);
-    (split; [simpl; discriminate|]); (split; [reflexivity|]);
+  intros Hc. unfold cross. rewrite Hc.
+  destruct f1; eexists; (split; [reflexivity|]);
+    (split; [intros Hx; try congruence; simpl; discriminate|]);
+    (split; [intros Hx; try discriminate Hx; reflexivity|]); (split; [reflexivity|]);
     (split; [apply vcross_perp_l | apply vcross_perp_r]).
 Qed.
-
-(* the faithful model raises for the "xyz" format *)
-Theorem cross_xyz_refuted :
-  exists (x1 x2 : V3), cross ROps Fxyz x1 Fxyz x2 = Err KeyError.
-Proof. exists (1, 0, 0), (0, 1, 0). reflexivity. Qed.
 
 Theorem cross_incompatible (f1 f2 : fmt) (x1 x2 : V3) :
   compatible f1 f2 = false -> cross ROps f1 x1 f2 x2 = Err ValueError.
